@@ -16,6 +16,7 @@ import Proofs.PostProcessAlias
 import Proofs.PostProcessMapped
 import Proofs.PostProcessChecked
 import Proofs.PostProcessAtomic
+import Proofs.PostProcessRecord
 import Gen.Facts
 
 namespace Props.C13
@@ -332,6 +333,49 @@ example :
     have h5 : exFS3.get ["ps", "MK", "files", "m0"] = some (.file 5) := by decide
     rw [← h5]
     simpa [Leaf.dest] using this
+
+/-- GLOBAL `content_preserved`, the RECORD half ("those values point at the
+materialised locations").  Same hypotheses as `content_preserved`.  The
+rewritten record is EXACTLY the input record with every file leaf replaced by
+`expectVal fs leaf` (`pureOuts`: the traversal with the leaf calls answered by
+that function, no file system involved): the path string of the leaf's
+destination when its source existed, null when the source is missing (or the
+value is the empty string / not an absolute path), the value itself when it is
+not a string; everything that is not a file leaf as `shape_preserved` says.
+Together with `content_preserved`: every recorded path names the destination
+that holds the leaf's content. -/
+theorem content_preserved_record (ps top : Path) (fs : FS) (params : List (String × String × Ty))
+    (outs : List (String × J)) (hwf : wfParams params = true)
+    (apart : ∀ l ∈ leavesRec params outs top, ∀ p, l.src = some p → ¬ p <+: top ∧ ¬ top <+: p)
+    (nonnest : (leavesRec params outs top).Pairwise (fun l1 l2 => ∀ p1 p2, l1.src = some p1 →
+      l2.src = some p2 → ¬ p1 <+: p2 ∧ ¬ p2 <+: p1))
+    (status : ∀ l ∈ leavesRec params outs top, ∀ p, l.src = some p →
+      fs.get p = none ∨ ∃ e, fs.get p = some e ∧ e.isLink = false ∧ inside ps p = true)
+    (free : ∀ l ∈ leavesRec params outs top, fs.get l.dest = none) :
+    (processStructOuts Gen.postProcessDimAware ps params (.obj outs) top fs).1 =
+      .obj (pureOuts (expectVal fs) params outs top) := by
+  rw [dim_aware]
+  exact record_values ps top fs params outs (clean_record ps top fs params outs hwf apart nonnest status free)
+
+/-- what `expectVal` says, leaf by leaf -/
+example :
+    expectVal exFS3 ⟨.str "/ps/MK/files/d", ["ps", "outs", "r", "0"], "0"⟩ = .str "/ps/outs/r/0/0" ∧
+    expectVal exFS3 ⟨.str "/ps/MK/files/nope", ["ps", "outs", "r", "0"], "1"⟩ = .null ∧
+    expectVal exFS3 ⟨.str "", ["ps", "outs"], "x"⟩ = .null ∧
+    expectVal exFS3 ⟨.lit "17", ["ps", "outs"], "x"⟩ = .lit "17" := by
+  refine ⟨?_, ?_, ?_, ?_⟩ <;> rfl
+
+/-- … and the whole rewritten record of the six-leaf example (as the writer's token stream):
+struct members, the directory and the missing file in the 2-dimensional array, the map entry. -/
+example :
+    emit (processStructOuts Gen.postProcessDimAware ["ps"] exSig3 (.obj exOuts3) ["ps", "outs"] exFS3).1 =
+    emit (.obj [("s", .obj [("f", .str "/ps/outs/s/f.txt"), ("g", .str "/ps/outs/s/out.bin"), ("n", .lit "3")]),
+      ("r", .arr [.arr [.str "/ps/outs/r/0/0", .null], .arr [.null, .str "/ps/outs/r/1/1"]]),
+      ("m", .obj [("b", .arr []), ("k1", .arr [.str "/ps/outs/m/k1/0.bam"])])]) := by
+  have hc := clean_check_sound ["ps"] ["ps", "outs"] exFS3 exSig3 exOuts3 (by decide) (by decide)
+  rw [content_preserved_record ["ps"] ["ps", "outs"] exFS3 exSig3 exOuts3 (by decide) hc.apart hc.nonnest
+    hc.status hc.free]
+  decide
 
 /-- Negative witness (known finding `C13:overlapping-outputs`, in the model):
 a directory output `d` and a file output `f` naming `d/inner`.  The sources are
